@@ -1222,7 +1222,7 @@ func runNilValReturn(meta *common.Meta, seed int64, outDir string) {
 			single = false
 		}
 		yNil := false
-		if id, ok := cond.Y.(*ast.Ident); ok && id.Name == "nil" {
+		if id, ok := cond.Y.(*ast.Ident); ok && id.Name == "nil" && l.Info.Types[cond.Y].IsNil() { // the predeclared nil (fix 24d85b5)
 			yNil = true
 		}
 		bodies = append(bodies, fmt.Sprintf("({| nvr_single_return := %v; nvr_op_is_eq := %v; nvr_y_is_nil := %v; nvr_x := %s; nvr_results := [%s] |}, %s)",
